@@ -280,14 +280,19 @@ func H_C08() {
 				why = "a lone CR between tokens is rejected as an unexpected character"
 			}
 		} else if len(a.Errs) > 0 && hasPrefixStr(a.Errs[0].Msg, "syntax error") {
-			why = "syntax error"
+			why = "syntax error with " + ParamStr("trivia")
 		}
 		Fail("C08:trivia-keeps-program-valid", why+" ("+ctxName(ParamStr("ctx"))+")")
 		return
 	}
 	eq, diff := TreeEq(a.Root, b.Root, CmpTokens)
 	if diff != "" {
-		Fail("C08:trivia-keeps-structure", shortDiffC(diff)+" ("+ctxName(ParamStr("ctx"))+")")
+		where := ctxName(ParamStr("ctx"))
+		if ParamStr("ctx") != "" {
+			// in the special contexts the kind of trivia is part of what fails
+			where += ", " + ParamStr("trivia")
+		}
+		Fail("C08:trivia-keeps-structure", shortDiffC(diff)+" ("+where+")")
 	} else {
 		Assert("C08:trivia-keeps-structure", eq)
 	}
